@@ -504,12 +504,17 @@ class Epoch:
 
     def __eq__(self, other):
         """
-        Compare epochs using their hash.
+        Compare epochs by their population sizes and migration rates. Like the hash, this does not include
+        the start and end time.
 
         :param other: The other epoch.
         :return: Whether the epochs are equal.
         """
-        return hash(self) == hash(other)
+        return (
+                isinstance(other, Epoch) and
+                tuple(self.pop_sizes.items()) == tuple(other.pop_sizes.items()) and
+                tuple(self.migration_rates.items()) == tuple(other.migration_rates.items())
+        )
 
     def __hash__(self):
         """
